@@ -72,6 +72,7 @@ func runC16(c *Ctx) {
 	c.r163()
 	c.r164()
 	c.r165()
+	c.r169()
 	// xml.KeepWhitespace honoured: the white-space clauses of C06 are option clauses too
 	c.alsoUnder(map[string]string{"R06.2": "R16.6", "R06.3": "R16.7"}, nil, func() { runC06(c) })
 	// css.KeepCSS2 sends numbers to minify.Decimal: the value guarantee has to hold under the option too
@@ -907,3 +908,45 @@ func str0(n ast.Node) string {
 }
 
 func nospace(s string) string { return strings.ReplaceAll(s, " ", "") }
+
+// R16.9: no escape is decoded into a raw line or paragraph separator inside a string literal.
+func (c *Ctx) r169() {
+	const rule = "R16.9"
+	c.R.Rule(rule, "U+2028 and U+2029 are line terminators: unescaped inside a '…' or \"…\" literal they are a syntax error before ES2019 (the JSON superset proposal), in a template literal they are allowed. js.replaceEscapes decodes `\\u2028` into the raw character and has no access to the target version: for Version ≤ 2018 the output used newer syntax than the input. The branch of replaceEscapes that decodes `\\u` escapes contains a test that names both code points (0x2028, 0x2029)")
+	pk := c.pkg(rule, "js")
+	if pk == nil {
+		return
+	}
+	fd := c.fn(rule, pk, "replaceEscapes")
+	if fd == nil {
+		return
+	}
+	var branch *ast.IfStmt
+	ast.Inspect(fd.Body, func(z ast.Node) bool {
+		ifs, ok := z.(*ast.IfStmt)
+		if !ok || branch != nil {
+			return true
+		}
+		chars, _, _ := c.constsIn(pk, ifs.Cond)
+		if chars['u'] && !chars['x'] {
+			branch = ifs
+		}
+		return true
+	})
+	if branch == nil {
+		c.R.Unres(rule, "js.replaceEscapes/\\u escapes", c.pos(fd), "the branch that decodes \\u escapes was not found")
+		return
+	}
+	good := false
+	ast.Inspect(branch.Body, func(z ast.Node) bool {
+		if ifs, ok := z.(*ast.IfStmt); ok {
+			_, _, ints := c.constsIn(pk, ifs.Cond)
+			if ints[0x2028] && ints[0x2029] {
+				good = true
+			}
+		}
+		return true
+	})
+	c.R.Check(good, rule, "js.replaceEscapes/\\u escape not decoded into a raw line or paragraph separator", c.pos(branch), "the branch tests the code point for 0x2028 and 0x2029",
+		"`\\u2028` and `\\u2029` are decoded like any other escape: `x=\"a\\u2028b\"` is printed with the raw separator inside the string literal, a syntax error for every target before ES2019")
+}
